@@ -30,9 +30,9 @@ SM_ASSUME = [
 
 
 def mkjob(shape, K, budget, ext_per_iter=1, nsn_depth=1, variant=0, double_nsn=False, rewrite=False, ext=True, sym_durations=True, by_ref=False,
-          default_acts=False):
+          default_acts=False, pre_durations=False):
     tg, et = TARGETS[shape]
-    return dict(shape=shape, variant=variant, sym_durations=sym_durations,
+    return dict(shape=shape, variant=variant, sym_durations=sym_durations, pre_durations=pre_durations,
                 cfg=dict(K=K, act_budget=budget, nsn_depth=nsn_depth, targets=tg, ext_targets=et, engage_by_reference=by_ref, default_acts=default_acts,
                          ext_menu="full" if ext else "engage-only",
                          ext_per_iter=ext_per_iter, double_nsn=double_nsn, rewrite_durations=rewrite))
@@ -186,13 +186,18 @@ class C02(SMSpec):
                     + [mkjob("S9", 6, 0, ext=False, sym_durations=False), mkjob("S7", 5, 0, ext=False, sym_durations=False, variant=2),
                        mkjob("S10", 5, 0, ext=False, sym_durations=False, variant=3), mkjob("S11", 6, 0, ext=False, variant=4)]
                     # a second live machine of the same class, engaged at other times: clocks are per machine
-                    + [self.twinjob("S2", 4, 0), self.twinjob("S6", 3, 0)])
+                    + [self.twinjob("S2", 4, 0), self.twinjob("S6", 3, 0)]
+                    # values already on the duration topics when the tunables are connected; a timed state re-entered by
+                    # next_state() after its earlier visit has long expired
+                    + [mkjob("S2", 4, 0, ext=False, pre_durations=True, variant=1), mkjob("S7", 4, 0, ext=False, pre_durations=True),
+                       mkjob("S1", 5, 2, ext=False, variant=2)])
         return ([mkjob(s, 8, 1, ext=False, variant=1) for s in ("S2", "S6", "S7")]
                 + [mkjob("S6", 7, 0, ext=False, variant=2, rewrite=True), mkjob("S2", 5, 0, ext=False, variant=2, rewrite=True),
                    mkjob("S7", 4, 0, ext=False, variant=2, rewrite=True), mkjob("S1", 7, 1, ext=False, variant=1), mkjob("S3", 6, 1, ext=False, variant=5),
                    mkjob("S9", 8, 0, ext=False, sym_durations=False), mkjob("S10", 7, 0, ext=False, sym_durations=False, variant=3),
                    mkjob("S11", 7, 1, ext=False, variant=4), mkjob("S8", 6, 1, ext=False, variant=1),
-                   self.twinjob("S2", 5, 0), self.twinjob("S6", 4, 0), self.twinjob("S7", 4, 1)])
+                   self.twinjob("S2", 5, 0), self.twinjob("S6", 4, 0), self.twinjob("S7", 4, 1),
+                   mkjob("S2", 6, 0, ext=False, pre_durations=True, variant=1), mkjob("S7", 6, 1, ext=False, pre_durations=True), mkjob("S1", 6, 2, ext=False, variant=2)])
 
     def reach_required(self, tier):
         return ["engagement-start", "timed-pair", "timed-stays", "timed-expired", "restart", "self-loop-note"][:5]
